@@ -142,6 +142,8 @@ def execute(fn, run, record_effects=False):
     old_stdout = sys.stdout
     sys.stdout = out
     err = None
+    import threading
+    threading.settrace(run.tracer)          # threads the procedure may start are traced (and faulted) as well
     sys.settrace(run.tracer)
     try:
         fn()
@@ -149,6 +151,7 @@ def execute(fn, run, record_effects=False):
         err = type(e).__name__
     finally:
         sys.settrace(None)
+        threading.settrace(None)
         sys.stdout = old_stdout
         run.active = False
         CURRENT[0] = None
@@ -236,6 +239,46 @@ def signer_faults(n_art=4):
     return out
 
 
+def large_channel_faults():
+    """a channel with more than a thousand artifacts: the signer fails late, or a later section is malformed -- the file must be unchanged"""
+    out = []
+    d = tempfile.mkdtemp(prefix="cctfault")
+    try:
+        fn = os.path.join(d, "repodata.json")
+        big = {"packages": {"p%04d-1.0-0.tar.bz2" % i: {"name": "p%d" % i} for i in range(1300)}, "packages.conda": {"q%d-1.conda" % i: {"n": i} for i in range(300)}}
+        for what in ("signer fails at artifact 1250", "signer fails at artifact 1500", "packages.conda is a list", "packages.conda holds an unserializable value"):
+            doc = dict(big)
+            if what == "packages.conda is a list":
+                doc["packages.conda"] = ["x"]
+            with open(fn, "w") as f:
+                json.dump(doc, f)
+            orig = open(fn, "rb").read()
+            calls = [0]
+            real = S.serialize_and_sign
+            limit = {"signer fails at artifact 1250": 1250, "signer fails at artifact 1500": 1500}.get(what)
+
+            def failing(obj, key):
+                calls[0] += 1
+                if limit is not None and calls[0] > limit:
+                    raise OSError("signer failed late")
+                if what.endswith("unserializable value") and calls[0] > 1400:
+                    raise TypeError("Object of type set is not JSON serializable")
+                return real(obj, key)
+            S.serialize_and_sign = failing
+            try:
+                S.sign_all_in_repodata(fn, KEYHEX)
+                out.append({"what": "large channel (%s): the failure was swallowed, the procedure reported success" % what})
+            except Exception:  # noqa
+                pass
+            finally:
+                S.serialize_and_sign = real
+            if open(fn, "rb").read() != orig:
+                out.append({"what": "large channel (%s): the procedure failed but the file was changed" % what})
+    finally:
+        shutil.rmtree(d, ignore_errors=True)
+    return out
+
+
 def malformed_inputs():
     out = []
     d = tempfile.mkdtemp(prefix="cctfault")
@@ -294,12 +337,20 @@ def main():
             f.write(KEYHEX + "\n")
         return fn
 
-    def root_files(d):
+    def root_files(d, eol="\n"):
         fn = os.path.join(d, "root.json")
-        with open(fn, "w") as f:
-            json.dump(ROOTMD, f)
+        with open(fn, "wb") as f:
+            f.write((json.dumps(ROOTMD) if eol == "\n" else json.dumps(ROOTMD, indent=4).replace("\n", eol) + eol).encode())
+        return fn
+
+    def repo_files_crlf(d):
+        fn = repo_files(d)
+        raw = json.dumps(REPODATA, indent=1).replace("\n", "\r\n").encode() + b"\r\n"
+        with open(fn, "wb") as f:
+            f.write(raw)
         return fn
     results.append(scenario("sign_all_in_repodata", repo_files, lambda d, t: S.sign_all_in_repodata(t, KEYHEX), quick, "sign_all_in_repodata"))
+    results.append(scenario("sign_all_in_repodata [CRLF input file]", repo_files_crlf, lambda d, t: S.sign_all_in_repodata(t, KEYHEX), True, "sign_all_in_repodata"))
     results.append(scenario("cli sign-artifacts", repo_files, lambda d, t: CLI.cli(["sign-artifacts", t, os.path.join(d, "key.txt")]), quick, "cli_sign_artifacts"))
     have_sslib = False
     try:
@@ -310,20 +361,34 @@ def main():
     if have_sslib:
         results.append(scenario("sign_root_metadata_via_gpg", root_files, lambda d, t: RS.sign_root_metadata_via_gpg(t, FPR), quick, "sign_root_metadata_via_gpg"))
         results.append(scenario("cli gpg-sign", root_files, lambda d, t: CLI.cli(["gpg-sign", FPR.upper()[:20] + " " + FPR[20:], t]), quick, "cli_gpg_sign"))
+        for eol, en in (("\r\n", "CRLF"), ("\r", "CR")):
+            results.append(scenario("sign_root_metadata_via_gpg [%s input file]" % en, lambda d, eol=eol: root_files(d, eol), lambda d, t: RS.sign_root_metadata_via_gpg(t, FPR), True,
+                                    "sign_root_metadata_via_gpg"))
         # the external signer fails
         d = tempfile.mkdtemp(prefix="cctfault")
+        extra = []
         try:
-            fn = root_files(d)
-            raw = open(fn, "rb").read()
-            real = RS.gpg_funcs.create_signature
-            RS.gpg_funcs.create_signature = lambda *a, **k: (_ for _ in ()).throw(OSError("card removed"))
-            try:
-                RS.sign_root_metadata_via_gpg(fn, FPR)
-            except OSError:
-                pass
-            finally:
-                RS.gpg_funcs.create_signature = real
-            extra = [] if open(fn, "rb").read() == raw else [{"what": "GPG signer failed and the metadata file was changed"}]
+            for eol in ("\n", "\r\n", "\r"):
+                fn = root_files(d, eol)
+                raw = open(fn, "rb").read()
+                real = RS.gpg_funcs.create_signature
+                RS.gpg_funcs.create_signature = lambda *a, **k: (_ for _ in ()).throw(OSError("card removed"))
+                try:
+                    RS.sign_root_metadata_via_gpg(fn, FPR)
+                except OSError:
+                    pass
+                finally:
+                    RS.gpg_funcs.create_signature = real
+                if open(fn, "rb").read() != raw:
+                    extra.append({"what": "GPG signer failed and the metadata file (line endings %r) was changed" % eol})
+                for badfpr in ("zz", FPR[:-1], None):
+                    try:
+                        RS.sign_root_metadata_via_gpg(fn, badfpr)
+                    except Exception:  # noqa
+                        pass
+                    if open(fn, "rb").read() != raw:
+                        extra.append({"what": "GPG signing with fingerprint %r failed and the metadata file (line endings %r) was changed" % (badfpr, eol)})
+                        break
         finally:
             shutil.rmtree(d, ignore_errors=True)
         results.append({"scenario": "gpg signer failure", "violations": extra})
@@ -332,23 +397,25 @@ def main():
         import conda_content_trust.root_signing as RS
         d = tempfile.mkdtemp(prefix="cctfault")
         try:
-            fn = root_files(d)
-            raw = open(fn, "rb").read()
             errs = []
-            for call in (lambda: RS.sign_root_metadata_via_gpg(fn, FPR), lambda: CLI.cli(["gpg-sign", FPR, fn])):
-                try:
-                    call()
-                    errs.append({"what": "GPG signing reported success without securesystemslib"})
-                except ImportError:
-                    pass
-                except Exception as e:  # noqa
-                    errs.append({"what": "GPG signing without securesystemslib raised %s, not ImportError" % type(e).__name__})
-                if open(fn, "rb").read() != raw:
-                    errs.append({"what": "GPG signing without securesystemslib changed the file"})
+            for eol in ("\n", "\r\n", "\r"):
+                fn = root_files(d, eol)
+                raw = open(fn, "rb").read()
+                for call in (lambda: RS.sign_root_metadata_via_gpg(fn, FPR), lambda: CLI.cli(["gpg-sign", FPR, fn])):
+                    try:
+                        call()
+                        errs.append({"what": "GPG signing reported success without securesystemslib"})
+                    except ImportError:
+                        pass
+                    except Exception as e:  # noqa
+                        errs.append({"what": "GPG signing without securesystemslib raised %s, not ImportError" % type(e).__name__})
+                    if open(fn, "rb").read() != raw:
+                        errs.append({"what": "GPG signing without securesystemslib changed the file (line endings %r)" % eol})
             results.append({"scenario": "missing optional dependency", "violations": errs})
         finally:
             shutil.rmtree(d, ignore_errors=True)
     results.append({"scenario": "signer fails at artifact i of n", "violations": signer_faults()})
+    results.append({"scenario": "signer fails late in a channel of 1600 artifacts", "violations": large_channel_faults()})
     results.append({"scenario": "malformed inputs", "violations": malformed_inputs()})
     json.dump(results, sys.stdout)
 
